@@ -595,9 +595,9 @@ def stream_iso(ctx, n_rt, n_text, n_arith, zones=None):
 
 
 def streams(ctx):
-    stream_new(ctx, ctx.scale(25000, 250000), ctx.scale(2500, 25000))
-    stream_arith(ctx, ctx.scale(12000, 120000))
-    stream_iso(ctx, ctx.scale(2000, 20000), ctx.scale(800, 8000), ctx.scale(400, 4000))
+    stream_new(ctx, ctx.scale(25000, 500000), ctx.scale(2500, 50000))
+    stream_arith(ctx, ctx.scale(12000, 250000))
+    stream_iso(ctx, ctx.scale(2000, 40000), ctx.scale(800, 15000), ctx.scale(400, 8000))
 
 
 def search(ctx):
